@@ -62,10 +62,18 @@ type ClusterProp struct {
 	RuleText  string
 	MakeSetup func(rng *rand.Rand, tier string, seed uint64) *Setup
 	MakeOracle func(e *core.Engine, tr *core.Trace) Oracle
+	atEnd      func(e *core.Engine)
 }
 
 func (p *ClusterProp) ID() string   { return p.Id }
 func (p *ClusterProp) Rule() string { return p.RuleText }
+
+// RunForDump executes a generated run and calls atEnd with the live engine (tooling only).
+func RunForDump(p *ClusterProp, seed uint64, atEnd func(e *core.Engine)) *RunOut {
+	p2 := *p
+	p2.atEnd = atEnd
+	return p2.Run(seed, "quick", nil)
+}
 
 func (p *ClusterProp) Run(seed uint64, tier string, tr *core.Trace) (out *RunOut) {
 	out = &RunOut{}
@@ -193,6 +201,9 @@ func (p *ClusterProp) Run(seed uint64, tier string, tr *core.Trace) (out *RunOut
 		out.Violations = append(out.Violations, vs...)
 	}
 	out.NonTrivial = or.NonTrivial(e)
+	if p.atEnd != nil {
+		p.atEnd(e)
+	}
 	return out
 }
 
@@ -295,3 +306,12 @@ func DumpDiffNote(e *core.Engine, i int) string {
 	sort.Strings(ks)
 	return fmt.Sprintf(" differing keys: %q", ks)
 }
+
+// NopOracle checks nothing (tooling).
+type NopOracle struct{}
+
+func (NopOracle) AfterStep(e *core.Engine, idx int, st *core.Step, stepErr error) []core.Violation {
+	return nil
+}
+func (NopOracle) Finish(e *core.Engine) []core.Violation { return nil }
+func (NopOracle) NonTrivial(e *core.Engine) bool       { return true }
